@@ -140,10 +140,11 @@ pub fn run(ctx: &Ctx) -> i32 {
             corpus[d.below(corpus.len())].1.clone()
         } else {
             // a generated grammar in a random layout
-            let g = ggen::build(&Profile::full(), stream);
+            let g = ggen::build(&Profile::text(), stream);
             textgen::layout(&g, &mut d, true).text
         };
-        let text = textgen::mutate_text(&base, &mut d);
+        // one in four generated texts is checked as it is (a valid grammar)
+        let text = if d.chance(1, 4) { base } else { textgen::mutate_text(&base, &mut d) };
         ev.label("mutants");
         check_text(&text, ev, "mutant")
     });
